@@ -633,9 +633,29 @@ def replay_dict(c, **kw):
 ENTRY_NAME = {"J": "validate_json_from_str", "C": "validate_cbor_from_slice"}
 CLASS_CODE = {"schema-malformed": 0, "doc-malformed": 1, "invalid": 2}
 
-# committed baseline of process-global mutable state under /repo/src (none on the pinned tree)
-GLOBAL_STATE_PATTERN = re.compile(r"static\s+mut\b|lazy_static!|thread_local!|\bOnceLock\b|\bOnceCell\b|\bAtomic(U|I|Bool|Usize|Ptr)|^\s*(pub\s+)?static\s+\w+\s*:\s*.*(Mutex|RwLock|RefCell|Cell)<")
-GLOBAL_STATE_BASELINE = []
+# ---------------------------------------------------------------------------
+# (e) process-global mutable state: the purity assumption behind C14_model_deterministic
+# ---------------------------------------------------------------------------
+# A `static` whose type allows mutation after start-up (static mut, or interior mutability / lazy initialisation:
+# OnceLock, OnceCell, LazyLock, Lazy, Mutex, RwLock, Atomic*, RefCell, Cell, UnsafeCell), and the macros lazy_static! /
+# thread_local!. Declarations may span lines and may sit inside functions. Everything under src/ except src/bin/ is
+# linked into the validation entry points (parser, lexer, validators), so all of it counts as reachable.
+STATIC_DECL = re.compile(r"\bstatic\s+(?:ref\s+)?(mut\s+)?([A-Za-z_][A-Za-z0-9_]*)\s*:\s*([^=;]+?)\s*(?:=|;)", re.S)
+MUTABLE_TYPE = re.compile(r"\b(OnceLock|OnceCell|LazyLock|LazyCell|Lazy|Mutex|RwLock|Atomic[A-Za-z0-9]*|RefCell|Cell|UnsafeCell|Condvar)\b")
+STATE_MACRO = re.compile(r"\b(lazy_static|thread_local)\s*!")
+
+# committed baseline (reviewed): the alias-cycle guard added by /repo d9284e7 - a per-thread stack of rule names that is
+# pushed and popped by an RAII guard inside one call and is empty between calls.
+GLOBAL_STATE_BASELINE = [
+    "src/validator/mod.rs: static ACTIVE_ALIASES: std::cell::RefCell<Vec<String>>",
+    "src/validator/mod.rs: thread_local!",
+]
+
+
+def strip_rust_comments(txt):
+    """drop // and /* */ comments (string literals containing // are rare in this crate and only make the scan stricter)"""
+    txt = re.sub(r"/\*.*?\*/", lambda m: "\n" * m.group(0).count("\n"), txt, flags=re.S)
+    return re.sub(r"//[^\n]*", "", txt)
 
 
 def scan_global_state():
@@ -648,12 +668,13 @@ def scan_global_state():
             rel = os.path.relpath(os.path.join(root, f), common.REPO)
             if rel.startswith("src/bin/"):
                 continue
-            for i, l in enumerate(open(os.path.join(root, f), encoding="utf-8", errors="replace")):
-                s = l.strip()
-                if s.startswith("//"):
-                    continue
-                if GLOBAL_STATE_PATTERN.search(l):
-                    hits.append("%s: %s" % (rel, s[:120]))
+            txt = strip_rust_comments(open(os.path.join(root, f), encoding="utf-8", errors="replace").read())
+            for m in STATIC_DECL.finditer(txt):
+                ty = re.sub(r"\s+", " ", m.group(3)).strip()
+                if m.group(1) or MUTABLE_TYPE.search(ty) or "static ref" in re.sub(r"\s+", " ", m.group(0)):
+                    hits.append("%s: static %s%s: %s" % (rel, "mut " if m.group(1) else "", m.group(2), ty[:160]))
+            for m in STATE_MACRO.finditer(txt):
+                hits.append("%s: %s!" % (rel, m.group(1)))
     return sorted(set(hits))
 
 
@@ -666,6 +687,186 @@ def own_findings():
     if os.path.exists(p):
         return [e for e in json.load(open(p)).get("findings", []) if e["status"] == "open"]
     return []
+
+
+# ---------------------------------------------------------------------------
+# (d') histories: "after other calls in the same process"
+# ---------------------------------------------------------------------------
+# A group = schemas that share every literal string / number and differ in ONE operator or flag, documents that tell the
+# members apart, both entry points. Anything memoised per process under a key that forgets the differing operator (a regex
+# cache keyed by the pattern text, a rule cache keyed by the rule name, ...) makes a later member answer like an earlier one.
+
+REGEX_PATTERNS = [   # (pattern, full match, matches only unanchored, no match)
+    ("[a-c]+x", "abcx", "--abcx--", "zzz"),
+    ("a.c", "abc", "xabcx", "ac"),
+    ("[0-9]+", "2024", "id-2024!", "none"),
+    ("(foo|bar)", "foo", "a foo b", "baz"),
+    ("x*y", "xxy", "xxyz", "xxz"),
+    ("[A-Z][a-z]+", "Abc", "anAbc", "abc"),
+    ("ab?c", "ac", "zacz", "ab"),
+    ("q", "q", "aqa", "a"),
+]
+TEXT_LITS = ["lit", "x/y", "ok", "é", ""]
+NUMS = [0, 1, 5, 10, 255]
+
+CONTEXTS = [   # (schema text around the type T, document around the value v, name)
+    (lambda T: "r0 = %s\n" % T, lambda v: v, "root"),
+    (lambda T: 'r0 = { "k": %s }\n' % T, lambda v: {"k": v}, "member"),
+    (lambda T: "r0 = [ %s, int ]\n" % T, lambda v: [v, 7], "element"),
+    (lambda T: 'r0 = { "a": { "b": [ * t1 ] } }\nt1 = %s\n' % T, lambda v: {"a": {"b": [v, v]}}, "nested"),
+    (lambda T: 'r0 = { "x/y": %s, ? "n": int }\n' % T, lambda v: {"x/y": v}, "slash-member"),
+]
+
+
+def history_group(rng, kind=None):
+    """returns {"kind", "members": [(member name, [(entry, schema text, doc bytes)])]}: one member = one operator variant at one
+    entry point with all the distinguishing documents"""
+    kind = kind or rng.choice(["regex", "regex", "regex", "eqne-text", "eqne-int", "cmp", "cut", "range", "occur", "type"])
+    ctx_s, ctx_d, ctx_n = rng.choice(CONTEXTS)
+    if kind == "regex":
+        pat, full, infix, none = rng.choice(REGEX_PATTERNS)
+        variants = [(op, 'tstr %s "%s"' % (op, pat)) for op in (".regexp", ".pcre", ".iregexp")]
+        values = [full, infix, none]
+    elif kind == "eqne-text":
+        lit = rng.choice(TEXT_LITS)
+        variants = [(op, 'tstr %s "%s"' % (op, lit)) for op in (".eq", ".ne")] + [("lit", '"%s"' % lit)]
+        values = [lit, lit + "z"]
+    elif kind == "eqne-int":
+        n = rng.choice(NUMS)
+        variants = [(op, "int %s %d" % (op, n)) for op in (".eq", ".ne")] + [("lit", "%d" % n)]
+        values = [n, n + 1]
+    elif kind == "cmp":
+        n = rng.choice(NUMS[1:])
+        variants = [(op, "uint %s %d" % (op, n)) for op in (".lt", ".le", ".gt", ".ge")]
+        values = [n - 1, n, n + 1]
+    elif kind == "cut":
+        k = rng.choice(["a", "name", "x/y"])
+        variants = [("cut", '{ ? "%s" ^ => int, * tstr => any }' % k), ("arrow", '{ ? "%s" => int, * tstr => any }' % k),
+                    ("colon", '{ ? "%s": int, * tstr => any }' % k), ("nokey", "{ * tstr => any }")]
+        values = [{k: "s"}, {k: 1}, {"zz": 1}]
+    elif kind == "range":
+        lo = rng.choice(NUMS)
+        hi = lo + rng.choice([1, 4, 90])
+        variants = [("..", "%d..%d" % (lo, hi)), ("...", "%d...%d" % (lo, hi))]
+        values = [lo, hi - 1, hi]
+    elif kind == "occur":
+        variants = [(o, "[ %s int ]" % o) for o in ("*", "+", "?", "1*2")]
+        values = [[], [1], [1, 2], [1, 2, 3]]
+    else:
+        variants = [("int", "int"), ("uint", "uint"), ("float", "float"), ("tstr", "tstr")]
+        values = [-1, 1, 1.5, "1"]
+    members = []
+    for name, T in variants:
+        for entry in ("J", "C"):
+            calls = []
+            for v in values:
+                d = ctx_d(v)
+                calls.append((entry, ctx_s(T), json_text(d).encode() if entry == "J" else cbor_enc(d)))
+            members.append(("%s/%s" % (name, entry), calls))
+    return {"kind": kind + "@" + ctx_n, "members": members}
+
+
+def call_line(c):
+    return "%s\t%s\t%s" % (c[0], c[1].encode().hex(), c[2].hex())
+
+
+def isolated(drv, lines):
+    """every line in a fresh process of its own (the baseline: no earlier call in the process)"""
+    import subprocess
+
+    def one(l):
+        p = subprocess.run([drv], input=l + "\n", stdout=subprocess.PIPE, stderr=subprocess.DEVNULL, text=True, timeout=120)
+        out = p.stdout.split("\n")
+        return out[0] if out and out[0] else "CRASH rc=%s" % p.returncode
+    with ThreadPoolExecutor(max_workers=common.NPROC) as ex:
+        return list(ex.map(one, lines))
+
+
+def group_orders(rng, n_members, extra):
+    """orders of the members: all permutations when there are at most 3, otherwise every member first once (followed by a
+    random arrangement of the others) plus `extra` random permutations"""
+    import itertools
+    idx = list(range(n_members))
+    if n_members <= 3:
+        return [list(p) for p in itertools.permutations(idx)]
+    orders = []
+    for f in idx:
+        rest = [i for i in idx if i != f]
+        rng.shuffle(rest)
+        orders.append([f] + rest)
+    for _ in range(extra):
+        o = idx[:]
+        rng.shuffle(o)
+        orders.append(o)
+    return orders
+
+
+def run_histories(res, drv, rng, n_groups, extra_orders, forced_kinds=()):
+    """returns statistics; reports a violation (with a two-call history when one suffices) for every call whose result in a
+    history differs from its isolated baseline"""
+    groups = [history_group(rng, k) for k in forced_kinds] + [history_group(rng) for _ in range(n_groups)]
+    all_lines = sorted({call_line(c) for g in groups for _, calls in g["members"] for c in calls})
+    base = dict(zip(all_lines, isolated(drv, all_lines)))
+    jobs = []          # (group index, order, lines)
+    for gi, g in enumerate(groups):
+        for o in group_orders(rng, len(g["members"]), extra_orders):
+            jobs.append((gi, o, [call_line(c) for mi in o for c in g["members"][mi][1]]))
+    with ThreadPoolExecutor(max_workers=common.NPROC) as ex:
+        outs = list(ex.map(lambda j: common.run_tool(drv, j[2], shards=1), jobs))
+    stats = {"groups": len(groups), "kinds": {}, "isolated_calls": len(all_lines), "histories": len(jobs), "calls_in_histories": 0,
+             "concurrent_groups": 0, "concurrent_calls": 0, "baseline_verdicts_distinguishing_members": 0}
+    for g in groups:
+        k = g["kind"].split("@")[0]
+        stats["kinds"][k] = stats["kinds"].get(k, 0) + 1
+        # the group is only informative when its members do not all answer alike
+        sigs = {tuple(base[call_line(c)].split("\t")[0] for c in calls) for _, calls in g["members"]}
+        if len(sigs) > 1:
+            stats["baseline_verdicts_distinguishing_members"] += 1
+    reported = set()
+    for (gi, o, lines), out in zip(jobs, outs):
+        g = groups[gi]
+        stats["calls_in_histories"] += len(lines)
+        for pos, (l, got) in enumerate(zip(lines, out)):
+            if got == base[l] or (gi, l) in reported:
+                continue
+            reported.add((gi, l))
+            # shrink: one earlier call that is enough
+            hist = lines[:pos]
+            for h in hist:
+                two = common.run_tool(drv, [h, l], shards=1)
+                if len(two) == 2 and two[1] != base[l]:
+                    hist = [h]
+                    break
+            e, sc, dc = l.split("\t")
+            res.violation("%s: the result depends on earlier calls in the same process (group %s, order %s): alone in a fresh process %s ; "
+                          "after %d other call(s) %s ; schema %r" % (ENTRY_NAME[e], g["kind"], [g["members"][m][0] for m in o], base[l][:200],
+                                                                   len(hist), got[:200], bytes.fromhex(sc).decode()),
+                          {"history": hist + [l], "isolated": base[l], "in_history": got, "entry": e, "schema": bytes.fromhex(sc).decode(), "doc_hex": dc})
+    # concurrently, cold: no call before the threads start
+    tc_lines, tc_calls = [], []
+    for g in groups:
+        calls = [c for _, cs in g["members"] for c in cs]
+        rng.shuffle(calls)
+        tc_calls.append(calls)
+        tc_lines.append("TC\t16\t2\t" + "\t".join("%s:%s:%s" % (c[0], c[1].encode().hex(), c[2].hex()) for c in calls))
+    with ThreadPoolExecutor(max_workers=4) as ex:
+        tc_out = list(ex.map(lambda l: common.run_tool(drv, [l], shards=1, multi=True), tc_lines))
+    for g, calls, out in zip(groups, tc_calls, tc_out):
+        f = out[0].split("\t||\t") if out else ["CRASH"]
+        if f[0] != "SETS" or len(f) != len(calls) + 1:
+            res.violation("history group %s: concurrent run did not finish: %s" % (g["kind"], (out[0] if out else "")[:200]), {"kind": "threads"}, no_input=True)
+            continue
+        stats["concurrent_groups"] += 1
+        stats["concurrent_calls"] += 32 * len(calls)
+        for c, sec in zip(calls, f[1:]):
+            l = call_line(c)
+            seen = sec.split("\t&&\t")
+            if seen != [base[l]] and ("T", l) not in reported:
+                reported.add(("T", l))
+                res.violation("%s: with the calls of group %s issued concurrently from 16 threads in a fresh process, this call returned %d different result(s) %s ; alone in a fresh process %s ; schema %r"
+                              % (ENTRY_NAME[c[0]], g["kind"], len(seen), [x[:120] for x in seen[:3]], base[l][:200], c[1]),
+                              {"history": [call_line(x) for x in calls], "concurrent": True, "isolated": base[l], "seen": seen[:4], "entry": c[0], "schema": c[1], "doc_hex": c[2].hex()})
+    return stats
 
 
 # ---------------------------------------------------------------------------
@@ -918,12 +1119,30 @@ def run(tier, seed):
 
     # known findings: replay the witnesses
     replay_findings(res, kfs, drv, orc, table)
+    phase("threads_eval")
 
-    # (e) global state
+    # (e) global state: a static that can change after start-up and is not in the reviewed baseline breaks the purity
+    # assumption behind C14_model_deterministic; it is treated like a broken proof obligation: the history search is widened
+    # and, if no concrete failing history is found, the run still fails naming the static.
     gs = scan_global_state()
     new_gs = [h for h in gs if h not in GLOBAL_STATE_BASELINE]
-    if new_gs:
-        res.notes.append("process-global mutable state not in the committed baseline: " + "; ".join(new_gs[:10]))
+    gone_gs = [h for h in GLOBAL_STATE_BASELINE if h not in gs]
+    if gone_gs:
+        res.notes.append("baseline entries of the global-state scan no longer present: " + "; ".join(gone_gs))
+    # (d') histories
+    wide = bool(new_gs) or not proved
+    n_groups = (36 if tier == "quick" else 600) * (4 if wide else 1)
+    hstats = run_histories(res, drv, rng, n_groups, extra_orders=(12 if wide else 3) if tier == "quick" else 12,
+                           forced_kinds=["regex", "eqne-text", "eqne-int", "cmp", "cut", "range", "occur", "type"])
+    evaluations += hstats["isolated_calls"] + hstats["calls_in_histories"] + hstats["concurrent_calls"]
+    phase("histories")
+    if new_gs and res.violations:
+        res.notes.append("process-global mutable state not in the reviewed baseline: " + "; ".join(new_gs[:10]))
+    if new_gs and not res.violations:
+        res.violation("process-global mutable state that is not in the reviewed baseline: %s - the purity assumption behind C14_model_deterministic "
+                      "(a call is a function of schema and document only) is no longer justified; %d history groups (%d histories, %d concurrent runs) "
+                      "found no call whose result depends on other calls" % ("; ".join(new_gs[:6]), hstats["groups"], hstats["histories"], hstats["concurrent_groups"]),
+                      {"kind": "purity-assumption", "new_global_state": new_gs}, no_input=True)
 
     # vm_compute slice of the location queries: guards extraction and the OCaml tree parser
     if loc_queries:
@@ -972,7 +1191,9 @@ def run(tier, seed):
         "cbor_trailing_bytes_accepted": trailing_accepted,
         "kind_table_from_code": {ENTRY_NAME[e]: {n: table[e][c] for n, c in CLASS_CODE.items()} for e in ("J", "C")},
         "kind_table_distinct": {ENTRY_NAME[e]: table_distinct[e] for e in ("J", "C")},
-        "global_state_scan": {"pattern": GLOBAL_STATE_PATTERN.pattern, "hits": gs, "baseline": GLOBAL_STATE_BASELINE, "new": new_gs},
+        "global_state_scan": {"static_pattern": STATIC_DECL.pattern, "mutable_types": MUTABLE_TYPE.pattern, "macros": STATE_MACRO.pattern,
+                              "hits": gs, "baseline": GLOBAL_STATE_BASELINE, "new": new_gs},
+        "histories": hstats, "history_search_widened": wide,
         "vm_compute_slice": k + 6, "phase_seconds": phases,
         "samples": [{"entry": c["entry"], "class": c["class"], "label": c["label"], "schema": c["schema"], "doc": c["doc"].decode("utf-8", "replace") if c["entry"] == "J" else c["doc"].hex(),
                      "impl": str(parse_out(a))[:300]} for c, a in list(zip(cases, out_a))[len(corpus):len(corpus) + 40:5]],
@@ -1016,6 +1237,27 @@ def replay(path):
     drv = common.build_harness("c14")
     common.coq_build([EXTRACT])
     orc = common.build_oracle("err", ["err_model"])
+    if "history" in r:
+        tgt = r["history"][-1]
+        alone = isolated(drv, [tgt])[0]
+        print("entry :", ENTRY_NAME[r["entry"]])
+        print("schema:", r["schema"].rstrip())
+        print("doc   :", r["doc_hex"])
+        print("alone in a fresh process          :", parse_out(alone))
+        if r.get("concurrent"):
+            line = "TC\t16\t2\t" + "\t".join(":".join(l.split("\t")) for l in r["history"])
+            out = common.run_tool(drv, [line], shards=1, multi=True)[0].split("\t||\t")
+            secs = out[1:]
+            i = len(r["history"]) - 1 - r["history"][::-1].index(tgt)
+            i = r["history"].index(call_line((r["entry"], r["schema"], bytes.fromhex(r["doc_hex"]))))
+            print("from 16 threads, cold process     :", [parse_out(x) for x in secs[i].split("\t&&\t")])
+        else:
+            out = common.run_tool(drv, r["history"], shards=1)
+            print("after %d earlier call(s), same process:" % (len(r["history"]) - 1), parse_out(out[-1]))
+            for h in r["history"][:-1]:
+                e, sc, dc = h.split("\t")
+                print("   earlier call:", ENTRY_NAME[e], repr(bytes.fromhex(sc).decode()), dc)
+        return 0
     todo = [r["first"], r["second"]] if "first" in r else [r]
     for c in todo:
         if "schema" not in c:
